@@ -102,9 +102,9 @@ class C11(Prop):
     TRUSTED = ["harness/src/bin/c11.rs compares the sinks and prints the first difference",
                "verif_delay hook (cfg bigtools_verif) in /repo: sleeps/yields only",
                "tokio, futures/crossbeam channels, AtomicCell, Condvar: assumed to implement the transitions of Model/Pipeline.v (validated by the runs)"]
-    ASSUMPTIONS = ["the staging buffer is abstracted by its delivery theorem (C12), re-proved for this use as C11_buffer_contract",
+    ASSUMPTIONS = ["single-lane writer: every staging buffer is the C12 machine itself (C11_refines, C11_buffers_are_c12, C11_splice_concrete); the lanes machine, the second pass and the converters use the buffer contract (C11_buffer_contract, C11_zoom_outer_contract)",
                    "no I/O error on the sink or the temporary files",
-                   "zoom lanes: safety per lane is proved by projection (C11_lanes_splice); progress of the multi-lane machine is not proved",
+                   "zoom lanes: safety per lane by projection (C11_lanes_splice), progress and completion of the multi-lane machine (C11_lanes_progress, C11_lanes_completion), second-pass assembly (C11_zoom_assembly)",
                    "f32 -0.0/NaN/inf are not generated"]
 
     # ------------------------------------------------------------------ generation
